@@ -373,9 +373,12 @@ pub fn parse_choice_text(input: &str) -> Result<ParsedChoiceText, CompilerError>
         };
         let (choice_only_text, choice_only_tags) = split_text_and_tags(&label)?;
         if after_label.is_empty() || after_label.starts_with("->") {
+            // (`* [x] ->` is, like `* ->`, the empty divert that the reference compiler
+            // allows on a choice line: "this choice is intentionally left blank")
             let inline_target = after_label
                 .strip_prefix("->")
                 .map(str::trim)
+                .filter(|target| !target.is_empty())
                 .map(parse_divert)
                 .transpose()?;
             return Ok(ParsedChoiceText {
